@@ -659,3 +659,76 @@ Proof.
   - change (join SP (x :: y :: xs)) with (x ++ 32 :: join SP (y :: xs)).
     rewrite split_fields_sep by exact H. rewrite IH. reflexivity.
 Qed.
+
+(* ------------------------------------------------------------------ element-wise replacement *)
+
+Definition repl_op (all : bool) (orig_w with_w : word) : option (str -> str) :=
+  let '(anc, orig) := split_anchor all orig_w (pattern_of orig_w) in
+  match anc, orig with
+  | ANone, [] => Some (fun s => s)
+  | _, _ =>
+      let w := literal_of with_w in
+      match pat_atoms orig with
+      | PatOut => None
+      | PatErr => Some (fun s => s)
+      | PatOk a =>
+          Some (fun s => match anc with
+                         | ABegin => replace_anchored a w s false
+                         | AEnd => replace_anchored a w s true
+                         | ANone => if all then replace_all (S (S (length s))) a w s false
+                                    else replace_first a w s
+                         end)
+      end
+  end.
+
+Lemma replace_elems_map : forall all orig w elems,
+  replace_elems all orig w elems = option_map (fun f => map f elems) (repl_op all orig w).
+Proof.
+  intros all orig w elems. unfold replace_elems, repl_op.
+  destruct (split_anchor all orig (pattern_of orig)) as [anc p].
+  destruct anc; destruct p as [|c p']; cbv beta iota zeta;
+    try (cbn [option_map]; rewrite map_id; reflexivity);
+    match goal with |- context [pat_atoms ?x] => destruct (pat_atoms x) end;
+    cbn [option_map]; try reflexivity; rewrite map_id; reflexivity.
+Qed.
+
+Section ElemRepl.
+  Variable upper lower : N -> N.
+  Variable quote : str -> str.
+
+  Lemma list_elems_unsliced_repl : forall e name i all orig w l star,
+    list_of_subject e name i = Some (l, star) ->
+    list_elems e (mkP name i (PRepl all orig w)) = Some (l, star).
+  Proof.
+    intros e name i all orig w l star H. unfold list_elems, list_of_subject in *.
+    cbn [p_name p_idx p_op pop_sliced pop_off pop_len] in *.
+    destruct (is_params_name name).
+    - inversion H; subst. unfold slice_elems. reflexivity.
+    - destruct i; try discriminate; cbn [is_list_idx]; destruct (env_get e name); try discriminate;
+        inversion H; subst; unfold slice_elems; reflexivity.
+  Qed.
+
+  Lemma elementwise_quoted_repl : forall e name i all orig w l star f,
+    list_of_subject e name i = Some (l, star) ->
+    repl_op all orig w = Some f ->
+    expand_word upper lower quote e (mkP name i (PRepl all orig w)) true =
+    OOk (if star then [ifs_join e (map f l)] else map f l, None).
+  Proof.
+    intros e name i all orig w l star f Hl Hf.
+    unfold expand_word, quoted_elem_fields. cbn [p_op].
+    rewrite (list_elems_unsliced_repl e name i all orig w l star Hl).
+    unfold per_elem_ops. cbn [p_op]. rewrite replace_elems_map, Hf. reflexivity.
+  Qed.
+
+  Lemma elementwise_scalar_repl : forall e name all orig w x f,
+    is_params_name name = false ->
+    env_get e name = VStr x ->
+    repl_op all orig w = Some f ->
+    param_exp upper lower quote e (mkP name INone (PRepl all orig w)) = OOk (f x, None).
+  Proof.
+    intros e name all orig w x f Hn Hv Hf.
+    assert (Hb : bash_value (env_get e name) INone = PVal (Some x)) by (rewrite Hv; reflexivity).
+    rewrite (param_exp_scalar upper lower quote e name INone _ (Some x) Hn eq_refl Hb). cbv zeta.
+    cbn [cur set_of is_unset negb]. rewrite replace_elems_map, Hf. reflexivity.
+  Qed.
+End ElemRepl.
